@@ -7,7 +7,7 @@
 (*   one `pub const T_<NAME>: StorageT = id;' per token (as coded: in the  *)
 (*   order of the tokens' original names; any fixed order would do - a      *)
 (*   different one is reported as informational), NAME being the name - or  *)
-(*   the rename map gives for it - in ASCII upper case; then TOK_IDS, the   *)
+(*   what the rename map gives for it - in ASCII upper case; then TOK_IDS, the   *)
 (*   ids in the same order.  The build fails (and writes nothing) iff some  *)
 (*   T_<NAME> is not a Rust identifier.                                     *)
 (* Names are sequences of code points.                                      *)
